@@ -11,6 +11,8 @@ VIEW = ["bip", FLAGS, do_import, import_mol_attr]          FLAGS = dict sp rp bv
        ["line", text, rule|None, parse_rule_from_suffix]    CRNHyperGraph().add_rxn_from_str
        ["parse", [text, ...], default_rule, parse_rule_from_suffix, prefer_suffix]   rxns_to_hypergraph
 
+case = {"kind": "parse-into", "net": NET, "views": [], "batches": [[form, [[line, rule|None], ...], default_rule, parse_suffix, prefer_suffix], ...]}
+       parse_rxns on a network that already holds reactions, batch after batch on the same object (round 5)
 case = {"kind": "sg-edit", "net": NET, "views": [], "sviews": [[include_mol, SDROPS, import_mol_attr, default_rule], ...]}   (round 5)
        the same for the species graph (SDROPS = dict label kind mol rules rmap pmap legr legp)
 case = {"kind": "bip-edit", "net": NET, "views": [], "dviews": [[FLAGS, DROPS, import_mol_attr, IMPORT_OPTS], ...]}   (round 5)
@@ -574,6 +576,22 @@ def impl(case):
     hist = bool(case.get("hist"))
     H = build(net)
     before = _net_obs(H)
+    if "batches" in case:
+        # parse_rxns on the SAME, non-empty network, batch after batch; the network is observed after every batch (also after one that raised)
+        outs = []
+        for form, items, dr, ps, pf in case["batches"]:
+            arg, extra, _ = _items_input(form, [tuple(x) for x in items])
+            code = 0
+            try:
+                H.parse_rxns(arg, default_rule=dr, parse_rule_from_suffix=ps, prefer_suffix=pf, **extra)
+            except KeyError:
+                code = 1
+            except ValueError:
+                code = 2
+            except IndexError:
+                code = 4
+            outs.append([code, _net_obs(H)])
+        return [before] + outs
     if "dviews" in case:
         outs = []
         for dv in case["dviews"]:
@@ -685,6 +703,12 @@ def _edit(ed):
 
 
 def coq_case(case):
+    if "batches" in case:
+        bs = []
+        for form, items, dr, ps, pf in case["batches"]:
+            _, _, eff = _items_input(form, [tuple(x) for x in items])
+            bs.append(cpair(clist([cpair(cs(line), copt(None if r is None else cs(r))) for line, r in eff]), cs(dr), cbool(ps), cbool(pf)))
+        return "run_parse_into %s %s" % (_net(case.get("net", {})), clist(bs))
     if "sviews" in case:
         return "run_sdrops %s %s" % (_net(case.get("net", {})), clist([
             cpair(cbool(sv[0]), "(SDrops %s)" % " ".join(cbool(sv[1][k]) for k in SDROP_KEYS), cbool(sv[2]), cs(sv[3])) for sv in case["sviews"]]))
@@ -829,6 +853,8 @@ def oracle(case):
     hist = bool(case.get("hist"))
     shared = hist or "edits" in case
     H = build(net) if shared else None            # history cases: ONE object through all steps, as in impl()
+    if "batches" in case:
+        return []               # parsing arbitrary text INTO a network is no round trip: correspondence only (C16_built_networks_consistent)
     if "sviews" in case:
         H = build(net)
         edges = _edges_of(H)
@@ -1295,6 +1321,20 @@ def _gen_cases(tier, rng):
             d = dict(d, vl=rng.choice([0, 0, 1, 2]), rs=rng.random() < 0.3)
             svs.append([rng.random() < 0.7, d, rng.random() < 0.8, rng.choice(["r", "r", "zz", ""])])
         cases.append(dict(kind="sg-edit", net=net, views=[], sviews=svs, hist=(t % 4 == 3)))
+    # ---- (round 5) parse_rxns on a network that already holds reactions: ids continue the per-rule counters (r_1, r_2 taken; explicit
+    #      ids that look generated), a raising line leaves the earlier lines, several batches on the same object
+    for t in range(16 if quick else 120):
+        net = _rand_net(rng, nsp=rng.randint(1, 5), nrx=rng.randint(1, 6))
+        if t % 2 == 0:
+            net["rxns"].append(["r_2", "r", [["A", 1]], [["B", 1]]])          # a caller-chosen id the generator will reach
+        batches = []
+        for _ in range(rng.randint(1, 3)):
+            items = []
+            for _ in range(rng.randint(1, 4)):
+                line = rng.choice([_fuzz_line(rng), "A + 2B >> C | rule=r", "A>>B|rule = R1", "A >> B", "2 X >> Y | id=3", "C >> D | rule=r", "no arrow"])
+                items.append([line, rng.choice([None, None, None, "r", "R1", ""])])
+            batches.append([rng.choice(["tuples", "tuples", "mapping", "rules"]), items, rng.choice(["r", "dflt"]), rng.random() < 0.7, rng.random() < 0.4])
+        cases.append(dict(kind="parse-into", net=net, views=[], batches=batches))
     # ---- wrappers / facades of the converters: _as_bipartite (own defaults: integer ids), _as_species_graph, _CRNGraphBackend
     for t in range(10 if quick else 60):
         net = _rand_net(rng, nsp=rng.randint(1, 6), nrx=rng.randint(0, 6))
